@@ -380,10 +380,16 @@ def run_history(ctx, idx, rng, tmp):
                     probe_level = int(rng.integers(0, len(chain)))
                 if feat == "emodulus" and rng.random() < 0.75:
                     # establish one of the documented scenarios first
-                    scen = str(rng.choice(["C", "A", "B"]))
+                    scen = str(rng.choice(["C", "A", "B", "C0"]))
                     want = {"emodulus lut": "LE-2D-FEM-19"}
                     if scen == "B":
                         want.update({"emodulus viscosity": 5.5, "emodulus medium": "other"})
+                    elif scen == "C0":
+                        # a configured temperature of exactly 0 degC (inside the range of the
+                        # water model) next to a possibly present temp feature
+                        want.update({"emodulus medium": "water",
+                                     "emodulus viscosity model": "herold-2017",
+                                     "emodulus temperature": 0.0})
                     else:
                         want.update({"emodulus medium": "CellCarrier",
                                      "emodulus viscosity model": "herold-2017"})
